@@ -120,8 +120,10 @@ struct VDisk : public DiskInterface {
   }
   bool MakeDir(const string& path) override {
     if (fail_mkdir.count(path)) { errno = ENOTDIR; return false; }
-    // a regular file in the way makes mkdir fail
+    // a regular file in the way (the path itself or any ancestor) makes mkdir fail
     if (files.count(path)) { errno = EEXIST; return false; }
+    for (size_t sl = path.find('/'); sl != string::npos; sl = path.find('/', sl + 1))
+      if (files.count(path.substr(0, sl))) { errno = ENOTDIR; return false; }
     CrashPoint("mkdir");
     dirs.insert(path);
     Log("mkdir " + hex(path));
